@@ -171,3 +171,105 @@ def resolve_at(prog, f, pos, n, depth=0):
     if "args" in n:
         out["args"] = [resolve_at(prog, f, pos, a, depth + 1) for a in n["args"]]
     return out
+
+
+# ---------------------------------------------------------------------------
+def lower_bound(n, depth=0):
+    """A linear lower bound of a non-negative integer expression, as
+    ({atom: Fraction}, Fraction): the expression is >= sum(coef*atom) + const
+    for every value of the atoms (atoms are rendered sub-expressions, assumed
+    non-negative).  floor(x / c) >= (x - (c-1)) / c  is what makes round-up
+    idioms  c*((x + c-1)/c),  ((x + 2^k-1) >> k) << k,  (x + c-1) & ~(c-1)
+    come out >= x, and round-down ones  c*(x/c)  come out as x - (c-1)."""
+    from fractions import Fraction as Fr
+    n = ir.strip(n)
+    if not isinstance(n, dict) or depth > 40:
+        return ({}, Fr(0))
+    k = n.get("k")
+    if k == "paren":
+        return lower_bound(n["e"], depth + 1)
+    if k == "int":
+        return ({}, Fr(n.get("v", 0)))
+
+    def atom(x):
+        return ({ir.render(x): Fr(1)}, Fr(0))
+
+    def add(a, b, sb=1):
+        out = dict(a[0])
+        for kk, v in b[0].items():
+            out[kk] = out.get(kk, 0) + sb * v
+        return ({kk: v for kk, v in out.items() if v != 0}, a[1] + sb * b[1])
+
+    def scale(a, c):
+        return ({kk: v * c for kk, v in a[0].items()}, a[1] * c)
+    if k == "bin":
+        op = n["op"]
+        l, r = n["l"], n["r"]
+        rc = ir.strip(r)
+        lc = ir.strip(l)
+        if op == "+":
+            return add(lower_bound(l, depth + 1), lower_bound(r, depth + 1))
+        if op == "*":
+            if isinstance(lc, dict) and lc.get("k") == "int" and lc.get("v", -1) >= 0:
+                return scale(lower_bound(r, depth + 1), Fr(lc["v"]))
+            if isinstance(rc, dict) and rc.get("k") == "int" and rc.get("v", -1) >= 0:
+                return scale(lower_bound(l, depth + 1), Fr(rc["v"]))
+            return atom(n)
+        if op == "/" and isinstance(rc, dict) and rc.get("k") == "int" and rc.get("v", 0) > 0:
+            c = rc["v"]
+            a = lower_bound(l, depth + 1)
+            return scale((a[0], a[1] - (c - 1)), Fr(1, c))
+        if op == ">>" and isinstance(rc, dict) and rc.get("k") == "int" and 0 <= rc.get("v", -1) < 63:
+            c = 1 << rc["v"]
+            a = lower_bound(l, depth + 1)
+            return scale((a[0], a[1] - (c - 1)), Fr(1, c))
+        if op == "<<" and isinstance(rc, dict) and rc.get("k") == "int" and 0 <= rc.get("v", -1) < 63:
+            return scale(lower_bound(l, depth + 1), Fr(1 << rc["v"]))
+        if op == "&":
+            for x, y in ((lc, l), (rc, r)):
+                pass
+            m = None
+            other = None
+            for x, o in ((lc, r), (rc, l)):
+                if isinstance(x, dict) and x.get("k") == "int":
+                    m, other = x.get("v"), o
+                if isinstance(x, dict) and x.get("k") == "un" and x.get("op") == "~":
+                    inner = ir.strip(x["e"])
+                    if isinstance(inner, dict) and inner.get("k") == "int":
+                        m, other = ~inner["v"], o
+            if m is not None and other is not None:
+                low = (~m) & 0xFFFFFFFFFFFFFFFF
+                # mask clears only a block of low bits: x & m >= x - low
+                if low & (low + 1) == 0 and low < (1 << 32):
+                    a = lower_bound(other, depth + 1)
+                    return (a[0], a[1] - low)
+            return ({}, Fr(0))
+        if op == "-":
+            # x - c : lower bound lb(x) - c ; x - y (y unknown): no bound
+            if isinstance(rc, dict) and rc.get("k") == "int":
+                a = lower_bound(l, depth + 1)
+                return (a[0], a[1] - rc["v"])
+            return ({}, Fr(0))
+        return atom(n)
+    if k == "cond":
+        a = lower_bound(n["t"], depth + 1)
+        b = lower_bound(n["f"], depth + 1)
+        keys = set(a[0]) | set(b[0])
+        return ({kk: min(a[0].get(kk, 0), b[0].get(kk, 0)) for kk in keys if min(a[0].get(kk, 0), b[0].get(kk, 0)) != 0}, min(a[1], b[1]))
+    return atom(n)
+
+
+def covers(expr, parts):
+    """expr >= sum(parts) provably?  parts: expressions (atoms / constants)."""
+    from fractions import Fraction as Fr
+    lb = lower_bound(expr)
+    need = ({}, Fr(0))
+    for p in parts:
+        q = lower_bound(p)
+        for kk, v in q[0].items():
+            need[0][kk] = need[0].get(kk, 0) + v
+        need = (need[0], need[1] + q[1])
+    for kk, v in need[0].items():
+        if lb[0].get(kk, 0) < v:
+            return False, lb
+    return lb[1] >= need[1], lb
